@@ -75,9 +75,15 @@ func (rc ringCase) String() string {
 func (rc ringCase) desc(now time.Time) *ring.Desc {
 	d := ring.NewDesc()
 	for k, in := range rc.insts {
-		ts := now.Add(-hbTimeout).Unix()
+		// healthy = the oldest heartbeat second that is still within the timeout, stale = the second before it
+		// (heartbeats have one-second resolution; `now` may have a sub-second part)
+		th := now.Add(-hbTimeout)
+		ts := th.Unix()
+		if th.Nanosecond() > 0 {
+			ts++
+		}
 		if in.cls == clsStale {
-			ts = now.Add(-hbTimeout - time.Second).Unix()
+			ts--
 		}
 		// token lists as an instance may have registered them: every second instance lists its tokens in descending order
 		// (the ring accepts unsorted lists and must treat them as the set they are)
@@ -462,7 +468,7 @@ func classify(rc ringCase) string {
 func TestC01(t *testing.T) {
 	rep := ev.NewReport("C01", "lookup")
 	u := getUniverse()
-	rep.Bound = fmt.Sprintf("instances 1..%d, tokens/instance 0..%d from %v, zones %q, %d health classes of (ACTIVE at exactly the heartbeat timeout, ACTIVE stale by 1s, LEAVING, PENDING, JOINING, ACTIVE read-only, LEAVING read-only, LEFT), RF %v, zone-awareness on/off, 4 ops, keys t-1,t,t+1 for every token + 0,1,M-1,M, 3 buffer variants; with 4 instances the per-instance alphabet is reduced to 4 tokens {0,1,7,M} and the first 5 classes", u.maxInst, u.maxTok, u.tokAlpha, u.zones, u.cls, u.rfs)
+	rep.Bound = fmt.Sprintf("instances 1..%d, tokens/instance 0..%d from %v, zones %q, %d health classes of (ACTIVE with the oldest heartbeat second still within the timeout, ACTIVE one second older — both at a whole-second `now` and, for rings of <=2 instances, half a second later —, LEAVING, PENDING, JOINING, ACTIVE read-only, LEAVING read-only, LEFT), RF %v, zone-awareness on/off, 4 ops, keys t-1,t,t+1 for every token + 0,1,M-1,M, 3 buffer variants; with 4 instances the per-instance alphabet is reduced to 4 tokens {0,1,7,M} and the first 5 classes", u.maxInst, u.maxTok, u.tokAlpha, u.zones, u.cls, u.rfs)
 	rep.Rule = "every descriptor of the universe (token→owner assignments × per-instance (zone,class), instances up to permutation) × RF × zone-awareness × op × boundary key × buffer variant, real Ring.Get vs linear-scan specification; distinct_nontrivial = distinct multisets of (class, #tokens, zone) with >=2 instances"
 	rep.Assumptions = []string{"keys matter only through comparison with tokens (one representative per gap and per token)", "instance ids matter only through equality"}
 	deadline := ev.Deadline(10 * time.Minute)
@@ -496,6 +502,28 @@ func TestC01(t *testing.T) {
 			})
 			if !done {
 				rep.NotExhaustive(fmt.Sprintf("stopped in n=%d (deadline or violation cap)", n))
+				break
+			}
+		}
+		// second pass, half a second later: with a sub-second part in `now` the heartbeat that is just too old is only
+		// timeout+0.5 s old (rings of up to 2 instances: the threshold arithmetic does not depend on the ring's shape)
+		time.Sleep(500 * time.Millisecond)
+		now2 := time.Now()
+		for n := 1; n <= 2 && n <= u.maxInst; n++ {
+			count, at := ringsOfSize(u, n)
+			done := enum.Par(count, deadline, func() bool { return rep.NumViolations() >= 20 }, func(i int) {
+				rc, ok := at(i)
+				if !ok {
+					return
+				}
+				e := checkRing(u, rc, n, i, rep, now2)
+				rep.Eval(e)
+				rep.State(1)
+				rep.Trans(e)
+				rep.Trace(e)
+			})
+			if !done {
+				rep.NotExhaustive("stopped in the half-second pass (deadline or violation cap)")
 				break
 			}
 		}
